@@ -1,8 +1,8 @@
 SPECIFICATION TSpec
 CONSTANTS
-  Actors = {"c1", "c2", "col"}
+  Actors = {"c1", "c2", "c3", "c4", "col"}
   Collector = "col"
-  Ports = {1, 2, 3, 4, 5, 6, 7, 8, 9}
+  Ports = {1, 2, 3, 4, 5, 6, 7, 8, 9, 10, 11, 12, 13}
   Plan <- TrPlan
   Policies = {"reply", "drop", "stash", "helper", "sleep", "both", "fail"}
   EnvOps = {"stop", "kill", "drain"}
